@@ -39,9 +39,13 @@ def _split(recs):
 
 
 def _chunks(behs):
+    """balanced chunks of at most ~CHUNK records, at least two (two TLC runs work side by side)"""
+    total = sum(len(b) for b in behs)
+    k = max(2, -(-total // CHUNK))
+    size = -(-total // k)
     cur, n = [], 0
     for b in behs:
-        if n and n + len(b) > CHUNK:
+        if n and n + len(b) > size:
             yield cur
             cur, n = [], 0
         cur.append(b)
